@@ -324,3 +324,187 @@ Section Reach.
     lra.
   Qed.
 End Reach.
+
+(** ** the same two bounds (property C07: depth cut-off and horizontal reach) for chains of straight pieces *and arcs*,
+    walked exactly as the specification [planar_chain] walks them: every piece starts where [eval_piece] says the
+    previous one ends.  Chord <= arc: |sin a - sin b| <= |a - b| and |cos a - cos b| <= |a - b|. *)
+Section ArcReach.
+  Variable sp : special.
+  Local Existing Instance Rnum.
+  Let N := Rnum sp.
+
+  Lemma abs_sin_le x : Rabs (sin x) <= Rabs x.
+  Proof.
+    assert (P : forall y, 0 < y -> Rabs (sin y) <= y).
+    { intros y Hy. pose proof (sin_lt_x y Hy) as S. pose proof (SIN_bound y) as [B0 B1]. apply Rabs_le.
+      destruct (Rle_dec y 1) as [L|L]; [|lra].
+      assert (0 <= sin y). { apply sin_ge_0; [lra|]. pose proof PI2_1. pose proof PI_RGT_0. lra. }
+      lra. }
+    destruct (Rtotal_order x 0) as [H|[H|H]].
+    - rewrite (Rabs_left x H). assert (Hn : 0 < - x) by lra. specialize (P (- x) Hn). rewrite sin_neg, Rabs_Ropp in P. exact P.
+    - subst x. rewrite sin_0, Rabs_R0. lra.
+    - rewrite (Rabs_right x) by lra. apply P. exact H.
+  Qed.
+
+  Lemma sin_lip a b : Rabs (sin a - sin b) <= Rabs (a - b).
+  Proof.
+    rewrite form4. rewrite !Rabs_mult. rewrite (Rabs_right 2) by lra.
+    pose proof (abs_sin_le ((a - b) / 2)) as S.
+    assert (C : Rabs (cos ((a + b) / 2)) <= 1) by (apply Rabs_le; pose proof (COS_bound ((a + b) / 2)); lra).
+    assert (E : Rabs ((a - b) / 2) = Rabs (a - b) / 2).
+    { unfold Rdiv. rewrite Rabs_mult. rewrite (Rabs_right (/ 2)) by lra. reflexivity. }
+    rewrite E in S. pose proof (Rabs_pos (cos ((a + b) / 2))). pose proof (Rabs_pos (sin ((a - b) / 2))). nra.
+  Qed.
+
+  Lemma cos_lip a b : Rabs (cos a - cos b) <= Rabs (a - b).
+  Proof.
+    rewrite form2. rewrite !Rabs_mult. rewrite (Rabs_left (-2)) by lra.
+    pose proof (abs_sin_le ((a - b) / 2)) as S.
+    assert (C : Rabs (sin ((a + b) / 2)) <= 1) by (apply Rabs_le; pose proof (SIN_bound ((a + b) / 2)); lra).
+    assert (E : Rabs ((a - b) / 2) = Rabs (a - b) / 2).
+    { unfold Rdiv. rewrite Rabs_mult. rewrite (Rabs_right (/ 2)) by lra. reflexivity. }
+    rewrite E in S. pose proof (Rabs_pos (sin ((a + b) / 2))). pose proof (Rabs_pos (sin ((a - b) / 2))). nra.
+  Qed.
+
+  (** ** chains of straight pieces and arcs, exactly as the specification [planar_chain] walks them *)
+  Definition piece_end (sx sy : R) (p : @piece R) : R * R :=
+    let e := @eval_piece R N sx sy p 0 0 in (pe_ex e, pe_ey e).
+
+  Lemma piece_end_any sx sy p u v :
+    (pe_ex (@eval_piece R N sx sy p u v), pe_ey (@eval_piece R N sx sy p u v)) = piece_end sx sy p.
+  Proof. unfold piece_end, eval_piece. destruct (is_straight p); reflexivity. Qed.
+
+  Fixpoint gchain_end (ps : list (@piece R)) (sx sy : R) : R * R :=
+    match ps with
+    | [] => (sx, sy)
+    | p :: r => let e := piece_end sx sy p in gchain_end r (fst e) (snd e)
+    end.
+  Fixpoint glength (ps : list (@piece R)) : R :=
+    match ps with [] => 0 | p :: r => pc_len p + glength r end.
+
+  Lemma not_straight_ne p : @is_straight R N p = false -> pc_top p <> pc_bot p.
+  Proof.
+    unfold is_straight. change (@flt R N) with Rltb. change (@fabs R N) with Rabs. change (@fsub R N) with Rminus.
+    intros H E. rewrite E in H. replace (pc_bot p - pc_bot p) with 0 in H by ring. rewrite Rabs_R0 in H.
+    destruct (Rltb_spec 0 (@fdec R N 1 (-9))) as [_|n]; [discriminate|]. apply n.
+    change (@fdec R N 1 (-9)) with (IZR 1 * powerRZ 10 (-9)). rewrite Rmult_1_l. apply powerRZ_lt. lra.
+  Qed.
+
+  (** the arc point of dip [th] is no further from the start of the arc, in either coordinate, than the
+      arclength R |th - t1| between them *)
+  Lemma arc_point_bound sx sy p th : pc_top p <> pc_bot p -> 0 <= pc_len p ->
+    Rabs (@arc_px R N sx p th - sx) <= @arc_radius R N p * Rabs (th - pc_top p) /\
+    Rabs (@arc_py R N sy p th - sy) <= @arc_radius R N p * Rabs (th - pc_top p).
+  Proof.
+    intros Hne HL. unfold arc_px, arc_py, arc_cx, arc_cy, nrm_x, nrm_y.
+    change (@fadd R N) with Rplus. change (@fsub R N) with Rminus. change (@fmul R N) with Rmult. change (@fopp R N) with Ropp.
+    change (@fsin R N) with sin. change (@fcos R N) with cos.
+    set (sg := @arc_sgn R N p). set (Rr := @arc_radius R N p).
+    assert (SG : Rabs sg = 1).
+    { unfold sg, arc_sgn. change (@flt R N) with Rltb. destruct (Rltb (pc_top p) (pc_bot p)).
+      - change (@f1 R N) with 1. apply Rabs_R1.
+      - change (Rabs (Ropp 1) = 1). rewrite Rabs_Ropp. apply Rabs_R1. }
+    assert (RP : 0 <= Rr).
+    { unfold Rr, arc_radius. change (@fdiv R N) with Rdiv. change (@fabs R N) with Rabs. change (@fsub R N) with Rminus.
+      apply Rmult_le_pos; [exact HL|]. apply Rlt_le, Rinv_0_lt_compat, Rabs_pos_lt. intro E0; apply Hne; lra. }
+    split.
+    - replace (sx + sg * Rr * - sin (pc_top p) - sg * Rr * - sin th - sx) with (sg * Rr * (sin th - sin (pc_top p))) by ring.
+      rewrite !Rabs_mult, SG, (Rabs_right Rr) by lra. pose proof (sin_lip th (pc_top p)). nra.
+    - replace (sy + sg * Rr * cos (pc_top p) - sg * Rr * cos th - sy) with (- (sg * Rr * (cos th - cos (pc_top p)))) by ring.
+      rewrite Rabs_Ropp, !Rabs_mult, SG, (Rabs_right Rr) by lra. pose proof (cos_lip th (pc_top p)). nra.
+  Qed.
+
+  Lemma arc_full_length p : pc_top p <> pc_bot p -> @arc_radius R N p * Rabs (pc_bot p - pc_top p) = pc_len p.
+  Proof.
+    intros Hne. unfold arc_radius. change (@fdiv R N) with Rdiv. change (@fabs R N) with Rabs. change (@fsub R N) with Rminus.
+    field. apply Rabs_no_R0. intro E0; apply Hne; lra.
+  Qed.
+
+  Lemma piece_end_bound sx sy p : 0 <= pc_len p ->
+    Rabs (fst (piece_end sx sy p) - sx) <= pc_len p /\ Rabs (snd (piece_end sx sy p) - sy) <= pc_len p.
+  Proof.
+    intros HL. unfold piece_end, eval_piece. destruct (is_straight p) eqn:S.
+    - unfold straight_eval. cbn [pe_ex pe_ey fst snd].
+      change (@fadd R N) with Rplus. change (@fmul R N) with Rmult. change (@fsin R N) with sin. change (@fcos R N) with cos.
+      replace (sx + pc_len p * cos (pc_top p) - sx) with (pc_len p * cos (pc_top p)) by ring.
+      replace (sy + pc_len p * sin (pc_top p) - sy) with (pc_len p * sin (pc_top p)) by ring.
+      rewrite !Rabs_mult, (Rabs_right (pc_len p)) by lra.
+      assert (Rabs (cos (pc_top p)) <= 1) by (apply Rabs_le; pose proof (COS_bound (pc_top p)); lra).
+      assert (Rabs (sin (pc_top p)) <= 1) by (apply Rabs_le; pose proof (SIN_bound (pc_top p)); lra).
+      split; nra.
+    - apply not_straight_ne in S. unfold arc_eval. cbn [pe_ex pe_ey fst snd].
+      pose proof (arc_point_bound sx sy p (pc_bot p) S HL) as [A B]. rewrite (arc_full_length p S) in A, B. split; assumption.
+  Qed.
+
+  Lemma gchain_end_bound : forall ps sx sy, Forall (fun p => 0 <= pc_len p) ps ->
+    Rabs (fst (gchain_end ps sx sy) - sx) <= glength ps /\ Rabs (snd (gchain_end ps sx sy) - sy) <= glength ps.
+  Proof.
+    induction ps as [|p r IH]; intros sx sy H; cbn [gchain_end glength].
+    - cbn [fst snd]. replace (sx - sx) with 0 by ring. replace (sy - sy) with 0 by ring. rewrite Rabs_R0. lra.
+    - inversion H as [|p' r' HL Hr]; subst. destruct (piece_end_bound sx sy p HL) as [A B].
+      destruct (IH (fst (piece_end sx sy p)) (snd (piece_end sx sy p)) Hr) as [C D]. cbn zeta.
+      set (ex := fst (piece_end sx sy p)) in *. set (ey := snd (piece_end sx sy p)) in *.
+      split.
+      + replace (fst (gchain_end r ex ey) - sx) with ((fst (gchain_end r ex ey) - ex) + (ex - sx)) by ring.
+        eapply Rle_trans; [apply Rabs_triang|]. lra.
+      + replace (snd (gchain_end r ex ey) - sy) with ((snd (gchain_end r ex ey) - ey) + (ey - sy)) by ring.
+        eapply Rle_trans; [apply Rabs_triang|]. lra.
+  Qed.
+
+  Lemma gchain_end_snoc : forall ps sx sy p,
+    gchain_end (ps ++ [p]) sx sy =
+    (pe_ex (@eval_piece R N (fst (gchain_end ps sx sy)) (snd (gchain_end ps sx sy)) p 0 0),
+     pe_ey (@eval_piece R N (fst (gchain_end ps sx sy)) (snd (gchain_end ps sx sy)) p 0 0)).
+  Proof. induction ps as [|q r IH]; intros sx sy p; cbn [gchain_end app]; [reflexivity | apply IH]. Qed.
+
+  (** a point whose foot lies on the piece [p] that follows the pieces [prefix]: on a straight piece at the
+      arclength [a], on an arc at the dip [phi] (arclength R |phi - top dip|), offset by [d] along the downward
+      normal at the foot *)
+  Definition on_piece (sx sy : R) (p : @piece R) (a phi d : R) : R * R :=
+    if @is_straight R N p then (sx + a * cos (pc_top p) - d * sin (pc_top p), sy + a * sin (pc_top p) + d * cos (pc_top p))
+    else (@arc_px R N sx p phi - d * sin phi, @arc_py R N sy p phi + d * cos phi).
+
+  Definition foot_on_piece (p : @piece R) (a phi : R) : Prop :=
+    if @is_straight R N p then 0 <= a <= pc_len p
+    else (pc_top p <= phi <= pc_bot p) \/ (pc_bot p <= phi <= pc_top p).
+
+  Lemma between_abs t1 t2 phi : (t1 <= phi <= t2) \/ (t2 <= phi <= t1) -> Rabs (phi - t1) <= Rabs (t2 - t1).
+  Proof. intros [[A B]|[A B]]; [rewrite !Rabs_right by lra | rewrite !Rabs_left1 by lra]; lra. Qed.
+
+  Theorem reach_and_cutoff_general : forall prefix sx sy p a phi d,
+    Forall (fun q => 0 <= pc_len q) prefix -> 0 <= pc_len p -> foot_on_piece p a phi ->
+    let s := gchain_end prefix sx sy in
+    let q := on_piece (fst s) (snd s) p a phi d in
+    Rabs (fst q - sx) <= (glength prefix + pc_len p) + Rabs d /\
+    snd q - sy <= (glength prefix + pc_len p) + Rabs d.
+  Proof.
+    intros prefix sx sy p a phi d Hp HL Hf s q.
+    destruct (gchain_end_bound prefix sx sy Hp) as [GX GY]. fold s in GX, GY.
+    assert (SN : Rabs (sin phi) <= 1) by (apply Rabs_le; pose proof (SIN_bound phi); lra).
+    assert (CS : Rabs (cos phi) <= 1) by (apply Rabs_le; pose proof (COS_bound phi); lra).
+    assert (SN' : Rabs (sin (pc_top p)) <= 1) by (apply Rabs_le; pose proof (SIN_bound (pc_top p)); lra).
+    assert (CS' : Rabs (cos (pc_top p)) <= 1) by (apply Rabs_le; pose proof (COS_bound (pc_top p)); lra).
+    pose proof (Rabs_pos d) as D0.
+    assert (K : Rabs (fst q - fst s) <= pc_len p + Rabs d /\ Rabs (snd q - snd s) <= pc_len p + Rabs d).
+    { unfold q, on_piece, foot_on_piece in *. destruct (is_straight p) eqn:S; cbn [fst snd].
+      - destruct Hf as [A0 A1]. split.
+        + replace (fst s + a * cos (pc_top p) - d * sin (pc_top p) - fst s) with (a * cos (pc_top p) + - (d * sin (pc_top p))) by ring.
+          eapply Rle_trans; [apply Rabs_triang|]. rewrite Rabs_Ropp, !Rabs_mult, (Rabs_right a) by lra. nra.
+        + replace (snd s + a * sin (pc_top p) + d * cos (pc_top p) - snd s) with (a * sin (pc_top p) + d * cos (pc_top p)) by ring.
+          eapply Rle_trans; [apply Rabs_triang|]. rewrite !Rabs_mult, (Rabs_right a) by lra. nra.
+      - apply not_straight_ne in S. destruct (arc_point_bound (fst s) (snd s) p phi S HL) as [A B].
+        pose proof (between_abs _ _ _ Hf) as Bt. pose proof (arc_full_length p S) as FL.
+        assert (RP : 0 <= @arc_radius R N p).
+        { unfold arc_radius. change (@fdiv R N) with Rdiv. change (@fabs R N) with Rabs. change (@fsub R N) with Rminus.
+          apply Rmult_le_pos; [exact HL|]. apply Rlt_le, Rinv_0_lt_compat, Rabs_pos_lt. intro E0; apply S; lra. }
+        assert (AL : @arc_radius R N p * Rabs (phi - pc_top p) <= pc_len p) by (rewrite <- FL; nra).
+        split.
+        + replace (@arc_px R N (fst s) p phi - d * sin phi - fst s) with ((@arc_px R N (fst s) p phi - fst s) + - (d * sin phi)) by ring.
+          eapply Rle_trans; [apply Rabs_triang|]. rewrite Rabs_Ropp, Rabs_mult. nra.
+        + replace (@arc_py R N (snd s) p phi + d * cos phi - snd s) with ((@arc_py R N (snd s) p phi - snd s) + d * cos phi) by ring.
+          eapply Rle_trans; [apply Rabs_triang|]. rewrite Rabs_mult. nra. }
+    destruct K as [KX KY]. split.
+    - replace (fst q - sx) with ((fst q - fst s) + (fst s - sx)) by ring. eapply Rle_trans; [apply Rabs_triang|]. lra.
+    - pose proof (Rle_abs (snd q - snd s)). pose proof (Rle_abs (snd s - sy)). lra.
+  Qed.
+End ArcReach.
